@@ -240,6 +240,35 @@ def wakeup_mismatch(r, fam):
         if best is None or len(oj) < len(best[1]): best = (hj, oj, dj, msg)
     return best
 
+def stuck_item_mismatch(r, fam):
+    """C03 ("nothing is blocked forever: every item is received or discarded") read off a divergence on a conveyor: the diverging history is run
+    on, event by event, until the kernel of the real code has nothing left to do.  An item that the exact travel accounting (the model) brings
+    to the exit, and that in the real code is still on the belt when the kernel is idle, will never be offered to anybody."""
+    from judges import parse_line
+    for (j, dj) in sorted(r.div, key=lambda x: len(r.traces[x[0]][1]))[:30]:
+        hj, oj, ilj = r.traces[j]
+        ops = list(oj) + [("ev",)] * 150 + [("probe", "occ"), ("probe", "ready")]
+        try:
+            il = run_impl(hj, ops); ml = run_model([(hj, ops)])[0]
+        except Exception:
+            continue
+        if ml is None or any(x == "GAVEUP" or "FLAGGED" in x for x in ml if x): continue
+        def arrived(lines):
+            got = []
+            for x in lines[:-2]:
+                f = x.split("|")
+                if len(f) >= 3: got += f[2].split()
+            return got
+        a_i, a_m = arrived(il), arrived(ml)
+        missing = [x for x in a_m if x not in a_i]
+        idle = il[-3].split("|")[0].strip() == il[-4].split("|")[0].strip() == il[-40].split("|")[0].strip()
+        if missing and idle and not il[-2].endswith(" 0") and il[-3].startswith("t="):
+            msg = (f"item {missing[0]} was put on the conveyor and never reaches the exit: the kernel is idle at {il[-3].split('|')[0].strip()} with "
+                   f"{il[-2]} / {il[-1]} (items still on the belt, not at the exit) - by the travel accounting it is at the exit long before; "
+                   f"no client can ever receive it")
+            return (hj, ops[:len(oj) + 150], len(oj) + 149, msg)
+    return None
+
 def rejected_call_mismatch(r, fam):
     """C07 read off a divergence, on the real code alone: a call that was rejected with RuntimeError must leave the store untouched, so the
     same history WITHOUT the rejected calls has to answer every other call in the same way.  The diverging histories are run again without
@@ -367,6 +396,9 @@ def check_property(pid, tier, seed):
                 except Exception: timing = None
             if not found and not timing and pid in ("C04", "C10", "C13"):
                 try: timing = wakeup_mismatch(r, fam)
+                except Exception: timing = None
+            if not found and not timing and pid == "C03" and fam in ("slot", "cbelt"):
+                try: timing = stuck_item_mismatch(r, fam)
                 except Exception: timing = None
             if not found and not timing and pid == "C07":
                 try: timing = rejected_call_mismatch(r, fam)
